@@ -131,7 +131,13 @@ void checkModel(const std::string& bytes, const std::string& src, uint64_t seed)
 	{
 		Frozen fa = freeze(*A);
 		NifFile B(*A);
-		std::string log = heavyEdits(B, rng);
+		std::string pre;
+		if (!A->GetShapes().empty() && A->GetRootNode()) {
+			// an edit of the copy that reads the source: a shape of the source cloned into the copy (the source is only an argument)
+			NiShape* sa = A->GetShapes()[rng.below((uint32_t)A->GetShapes().size())];
+			if (B.CloneShape(sa, sa->name.get() + "_from_source", A.get())) pre = "cloneShapeFromSource(" + sa->name.get().substr(0, 40) + ");";
+		}
+		std::string log = pre + heavyEdits(B, rng);
 		saveNif(B, false);
 		if (!unchanged(*A, fa, src + " edits on the copy: " + log, "source-after-editing-copy", vclass)) return;
 		// 3. editing the source leaves the copy alone
@@ -211,6 +217,7 @@ void run(size_t idx) {
 		ao.segments = idx % 2 == 0;
 		ao.partitions = idx % 3 == 0;
 		ao.texturing = (idx / 6) % 2 == 1;
+		ao.modelSpace = (idx / 4) % 2 == 1;   // SK / SSE: shaders with model-space normals (cloning drops normals and tangents of the clone)
 		ApiModel m = buildApiModel(seed, (int)idx, &ao);
 		if (!m.ok) return;
 		NifFile cp(*m.nif);
